@@ -17,6 +17,17 @@ def run(tier, replay=None):
         corpus, sv, vectors, stats = V.build(tier)
     binary = common.cargo_build('codec_driver')
     ev = common.run_driver(binary, (V.driver_row(v) for v in vectors), 'c01')
+    # the typed entry points: expect_{client,server}_message::<M> (login and world) and read_initial_message
+    rows2 = []
+    for v in vectors:
+        if v['family'] == 'login':
+            rows2.append([v['id'] + '/expect', 'L.expect', v['version'], v['dir'], v['object'], v['hex']])
+            if v['object'] in ('CMD_AUTH_LOGON_CHALLENGE_Client', 'CMD_AUTH_RECONNECT_CHALLENGE_Client') and v['version'] == 2:
+                rows2.append([v['id'] + '/initial', 'L.initial', v['hex']])
+        elif v['kind'].startswith(('policy', 'captured', 'rand')) or tier == 'thorough':
+            rows2.append([v['id'] + '/expect', 'W.stream', v['version'], v['dir'], 'expect', 'plain', v['object'], v['hex']])
+    ev2 = common.run_driver(binary, rows2, 'c01x')
+    known_bad = set()
     missing = 0
     for v in vectors:
         e = ev.get(v['id'])
@@ -36,6 +47,40 @@ def run(tier, replay=None):
             r = chk.violation(obs, {'vector': v, 'event': e, 'why': why,
                                     'driver_cmd': 'python3 check.py C01 --replay <this file>'})
             chk.count(r)
+    # judge the typed entry points against the same reference bytes (only for vectors the enum path handles:
+    # a vector that fails there is already reported above)
+    byid = {v['id']: v for v in vectors}
+    for rid, e in ev2.items():
+        vid, api = rid.rsplit('/', 1)
+        v = byid.get(vid)
+        if v is None or judge.judge_roundtrip(v, ev.get(vid) or {}) is not None:
+            continue
+        ref = bytes.fromhex(v['hex'])
+        why = None
+        if api == 'expect' and v['family'] == 'world':
+            msgs = e.get('msgs') or []
+            if e.get('result') != 'done' or len(msgs) != 1 or msgs[0].get('result') != 'ok':
+                why = {'reason': 'typed-read-failed', 'detail': str(msgs[:1] or e)[:300]}
+            elif msgs[0].get('pos') != len(ref):
+                why = {'reason': 'consumed', 'detail': f"{msgs[0].get('pos')} of {len(ref)}"}
+            else:
+                out = judge.out_bytes(msgs[0])
+                if out is not None and 'nonfixed-spline' not in (v.get('feat') or []) and judge.same_message(v, out):
+                    why = {'reason': 'bytes', 'detail': judge.same_message(v, out)}
+        else:
+            if e.get('result') != 'ok':
+                why = {'reason': 'typed-read-failed', 'detail': {k: str(x)[:120] for k, x in e.items()}}
+            elif e.get('consumed') != len(ref):
+                why = {'reason': 'consumed', 'detail': f"{e.get('consumed')} of {len(ref)}"}
+            elif judge.out_bytes(e) != ref:
+                why = {'reason': 'bytes', 'detail': 'typed write differs from the reference encoding'}
+        if why is None:
+            chk.count('typed-ok')
+            chk.ok(('typed', api, v['version'], v['dir'], v['object']))
+        else:
+            chk.count('typed-bad')
+            chk.violation({'check': 'typed-entry', 'api': api, 'family': v['family'], 'version': v['version'], 'dir': v['dir'], 'object': v['object'],
+                           'reason': why['reason']}, {'vector': v, 'event': e, 'why': why})
     if missing:
         chk.inconclusive.append(f'{missing} vectors have no event (BEGIN/END conservation broken)')
     chk.extra['selfval'] = {k: v for k, v in sv.items() if k not in ('failures', 'skipped')}
